@@ -140,7 +140,7 @@ func buildStack(layers string, raw kvdb.Store, n int) (*stack, error) {
 					}
 				}
 			}
-			s.top = table.New(s.top, p)
+			s.top = table.New(s.top, spare(p)) // prefix slice with cap > len, as callers have
 		case "flushable":
 			f := flushable.Wrap(s.top)
 			flushers = append(flushers, f)
